@@ -14,7 +14,7 @@ static int peers[MAXCL], gone[MAXCL], ncl;
 static vs_buf bufs[MAXCL];
 static char *pics[MAXCL]; static int picw[MAXCL], pich[MAXCL];
 static char *line;
-static int last_px, last_py, have_ptr;
+static int last_px, last_py, last_pb, have_ptr;
 #define LINESZ (1 << 22)
 
 static uint32_t getpixs(const char *fb, int stride, int x, int y) {
@@ -44,7 +44,7 @@ static void state(void) {
 }
 
 static void gone_hook(rfbClientPtr cl) { int i; for (i = 0; i < ncl; i++) if (cls[i] == cl) gone[i] = 1; }
-static void ptr_hook(int mask, int x, int y, rfbClientPtr cl) { last_px = x; last_py = y; have_ptr = 1; rfbDefaultPtrAddEvent(mask, x, y, cl); }
+static void ptr_hook(int mask, int x, int y, rfbClientPtr cl) { last_px = x; last_py = y; last_pb = mask; have_ptr++; rfbDefaultPtrAddEvent(mask, x, y, cl); }
 
 static void drop_all(void) {
   int i;
@@ -107,6 +107,21 @@ static size_t walk_fbu(int k, size_t o, char *pic, int pw, int ph, int verbose) 
           memcpy(pic + ((size_t)(y + j) * pw + x + i) * BPP, b->p + o + 12 + ((size_t)j * w + i) * BPP, BPP);
       }
       o += 12 + need;
+    } else if (enc == rfbEncodingCopyRect) {
+      unsigned sx_, sy_;
+      if (b->n - o < 16) return 0;
+      sx_ = vs_get16(b->p + o + 12); sy_ = vs_get16(b->p + o + 14);
+      if (verbose) printf(" c=%u,%u,%u,%u<-%u,%u", x, y, w, h, sx_, sy_);
+      if (pic) {
+        if (x + w > (unsigned)pw || y + h > (unsigned)ph || sx_ + w > (unsigned)pw || sy_ + h > (unsigned)ph) { if (verbose) printf(" OUTSIDE"); }
+        else if (w && h) {
+          char *tmp = (char *)malloc((size_t)w * h * BPP);
+          for (j = 0; j < h; j++) memcpy(tmp + (size_t)j * w * BPP, pic + ((size_t)(sy_ + j) * pw + sx_) * BPP, (size_t)w * BPP);
+          for (j = 0; j < h; j++) memcpy(pic + ((size_t)(y + j) * pw + x) * BPP, tmp + (size_t)j * w * BPP, (size_t)w * BPP);
+          free(tmp);
+        }
+      }
+      o += 16;
     } else if (enc == rfbEncodingXCursor || enc == rfbEncodingRichCursor) {
       size_t rb = (w + 7) / 8, len = 12;
       if (w * h) len += (enc == rfbEncodingXCursor ? 6 + rb * h : (size_t)w * h * BPP) + rb * h;
@@ -182,7 +197,7 @@ int main(void) {
       printf("curs ok\n");
     }
     else if (!strcmp(op, "client")) {
-      int k = ncl, rc; int32_t encs[3]; int ne = 1;
+      int k = ncl, rc; int32_t encs[4]; int ne = 1;
       ncl++;
       rc = fast_connect(k);
       if (rc != 0) { printf("client-failed %d\n", rc); return 3; }
@@ -192,6 +207,7 @@ int main(void) {
       if (strstr(rest, "ultra")) encs[0] = rfbEncodingUltra;
       if (strstr(rest, "rich")) encs[ne++] = rfbEncodingRichCursor;
       else if (strstr(rest, " x")) encs[ne++] = rfbEncodingXCursor;
+      if (strstr(rest, "copyrect")) encs[ne++] = rfbEncodingCopyRect;
       vs_send_set_encodings(peers[k], ne, encs);
       pump();
       bufs[k].rd = bufs[k].n;
@@ -215,21 +231,48 @@ int main(void) {
       rfbMarkRectAsModified(scr, a[0], a[1], a[2], a[3]);
       printf("fill "); state(); putchar('\n');
     }
+    else if (!strcmp(op, "copy")) {
+      /* copy x1 y1 x2 y2 dx dy: rfbDoCopyRect - the library moves the pixels inside the framebuffer and
+       * schedules a CopyRect for the clients that take it */
+      rfbDoCopyRect(scr, a[0], a[1], a[2], a[3], a[4], a[5]);
+      pump();
+      printf("copy "); state(); putchar('\n');
+    }
     else if (!strcmp(op, "gone")) {
       int k = a[0];
       if (k < ncl && !gone[k]) { close(peers[k]); peers[k] = -1; pump(); }
       printf("gone "); state(); putchar('\n');
     }
-    else if (!strcmp(op, "ptr")) {
+    else if (!strcmp(op, "deferptr")) {
+      /* deferptr ms: screen->deferPtrUpdateTime (-deferptrupdate): pure motions are remembered and delivered
+       * later by rfbUpdateClient.  Use values far above the duration of a pump; `flush` lets the time pass. */
+      scr->deferPtrUpdateTime = a[0];
+      printf("deferptr ok\n");
+    }
+    else if (!strcmp(op, "ptr") || !strcmp(op, "flush")) {
+      /* ptr k x y [buttons]: PointerEvent in the client's (scaled) coordinates;
+       * flush k: the deferral time of client k passes (its start stamp is moved back), rfbUpdateClient runs */
       int k = a[0];
       have_ptr = 0;
-      if (k < ncl && !gone[k]) { unsigned char m[6]; m[0] = 5; m[1] = 0; vs_put16(m + 2, a[1]); vs_put16(m + 4, a[2]); vs_write(peers[k], m, 6); pump(); }
-      if (!have_ptr) printf("ptr cb=-\n");
+      if (k < ncl && !gone[k]) {
+        if (op[0] == 'p') {
+          unsigned char m[6]; m[0] = 5; m[1] = (unsigned char)(n >= 5 ? a[3] : 0); vs_put16(m + 2, a[1]); vs_put16(m + 4, a[2]);
+          vs_write(peers[k], m, 6); pump();
+        } else {
+          pump();
+          /* only while a position is remembered: a stale stamp would make the next motion appear at once */
+          if (cls[k]->lastPtrX >= 0 && cls[k]->startPtrDeferring.tv_usec != 0) cls[k]->startPtrDeferring.tv_sec -= scr->deferPtrUpdateTime / 1000 + 2;
+          pump();
+        }
+      }
+      if (!have_ptr) printf("%s cb=-\n", op);
       else {
-        printf("ptr cb=");
+        printf("%s cb=", op);
         if (last_px == (int)0x80000000) printf("indef"); else printf("%d", last_px);
         putchar(',');
         if (last_py == (int)0x80000000) printf("indef"); else printf("%d", last_py);
+        printf(" b=%d", last_pb);
+        if (have_ptr > 1) printf(" EVENTS=%d", have_ptr);
         putchar('\n');
       }
     }
